@@ -91,7 +91,8 @@ def main():
         path = os.path.join(rdir, "%s-%d.json" % (pid, i))
         with open(path, "w") as fh:
             json.dump({"property": pid, "clause": f["clause"], "init": f.get("init", res.get("init")),
-                       "hist": f["hist"], "from": f.get("from", 1), "step": f["step"]}, fh)
+                       "hist": f["hist"], "from": f.get("from", 1), "step": f["step"], "tid": f["tid"],
+                       "seed": seed}, fh)
         print("VIOLATION property=%s replay=%s clause=%s" % (pid, path, f["clause"]))
         shown += 1
     if violations and shown < len(violations):
